@@ -31,7 +31,7 @@ META = {
                   "dominated by anything ever offered, improvements = number of accepted offers entering an unoccupied box; rejected add changes nothing; "
                   "Archive(EpsilonDominance) holds the same contents. Tied to /repo on every run by exact differential correspondence (operation "
                   "sequences on both archive classes and direct pair cases, vm_compute) and an independent Fraction-based oracle on the real objects.",
-    "level_note": "Theorems are about EXACT rational arithmetic under eps > 0, one objective per direction, violation >= 0 (no other hypothesis). "
+    "level_note": "Tie/T05.v also states the archive invariant and transitivity about the Archive.add and EpsilonDominance.compare GENERATED from the source text (tie_c05_generated_*). Theorems are about EXACT rational arithmetic under eps > 0, one objective per direction, violation >= 0 (no other hypothesis). "
                   "binary64 rounding of o/eps, i*eps, o - i*eps, squares and sums is NOT modelled: the correspondence only uses dyadic inputs on which "
                   "every one of these float operations is exact and the driver verifies that per case with fractions.Fraction (inexact cases are "
                   "discarded and counted). Arbitrary floats and non-dyadic epsilons (0.1, 0.3, ...) are exercised by the oracle only, which judges the "
